@@ -451,7 +451,10 @@ func (g *wholeGen) htmlPiece(depth int) string {
 		return pick(r, []string{"<a>" + l + "</a>", "<a href=\"\">" + l + "</a>", "<a name=\"n\">" + l + "</a>", "<a href>" + l + "</a>", "<a href=\"&#27;&#7;\">" + l + "</a>", "<a HREF=\"\" title=\"https://t.example/no\">" + l + "</a>", "<a data-href=\"https://t.example/no\">" + l + "</a>"})
 	case 2: // an href that is only blank, or differently spelled attributes
 		l, t := g.fresh()
-		switch r.Intn(4) {
+		switch r.Intn(5) {
+		case 4: // control characters written as character references: gone from the link that is opened
+			g.expect(l, t+"[2J")
+			return "<a href=\"" + t + pick(r, []string{"&#27;", "&#x1b;", "&#x9d;", "&#129;", "&#07", "&#x90;&#0000027;"}) + "[2J" + pick(r, []string{"", "&#7;", "&#127;", "&#x8d;"}) + "\">" + l + "</a>"
 		case 0:
 			g.expect(l, " ")
 			return "<a href=\" \">" + l + "</a>"
@@ -817,7 +820,7 @@ func genWhole(r *rand.Rand, n int, linksOnly bool, emit func(Op)) {
 		if !ui {
 			steps = append(steps, []any{"select", pick(r, []int{-1, -2, -1 << 31, -1 << 63, 1 << 31, 1<<63 - 1})})
 		}
-		steps = append(steps, []any{"type", pick(r, []string{"01", "007", "00", "0000000000000000000001", "99999999999999999999", "9223372036854775807", "9223372036854775808", "18446744073709551617", "2", "10"})})
+		steps = append(steps, []any{"type", pick(r, []string{"01", "007", "010", "08", "09", "0012", "00", "0000000000000000000001", "99999999999999999999", "9223372036854775807", "9223372036854775808", "18446744073709551617", "2", "10"})})
 		steps = append(steps, []any{pick(r, []string{"media", "pfp", "banner"})})
 		r.Shuffle(len(steps), func(a, b int) { steps[a], steps[b] = steps[b], steps[a] })
 		if len(steps) > 0 {
